@@ -82,9 +82,12 @@ def cases(draw):
     prior = None
     if draw(st.integers(0, 2)) == 0:
         # the same handlers / parser objects have processed another command before (same code or another word-reading one)
-        pcode = draw(st.sampled_from([code, code, "G28", "G10", "G92", "G1"]))
-        pl = {"G0": "XYZEF", "G1": "XYZEF", "G2": "XYZEFIJ", "G3": "XYZEFIJ", "G92": "E", "G28": "XYZ", "G10": "SPL"}[pcode]
-        prior = {"code": pcode, "words": draw(st.lists(word(pl), min_size=1, max_size=4))}
+        pcode = draw(st.sampled_from([code, code, "G28", "G10", "G92", "G1", "G91", "G20"]))
+        pl = {"G0": "XYZEF", "G1": "XYZEF", "G2": "XYZEFIJ", "G3": "XYZEFIJ", "G92": "E", "G28": "XYZ", "G10": "SPL", "G91": "S", "G20": "S"}[pcode]
+        # how: the prior command went through the handlers; or the shared parser split the very text of the command under test
+        # as a one-line script (walked to its end, as a settings save does); reset: a new print started in between
+        prior = {"code": pcode, "words": draw(st.lists(word(pl), min_size=0 if pcode in ("G91", "G20") else 1, max_size=4)),
+                 "how": draw(st.sampled_from(["handle", "handle", "split_same"])), "reset": draw(st.integers(0, 2)) == 0}
         for w in prior["words"]:
             if w["l"] in "IJ" and w["v"] is not None and abs(w["v"]) > 500:
                 w["t"], w["v"] = "2.5", 2.5
@@ -156,6 +159,12 @@ def run_case(case, strict=False):  # pylint: disable=unused-argument,too-many-br
         except Exception:  # pylint: disable=broad-except
             pass
         flt.gcode("G1 X5 Y5")
+        if case["prior"].get("reset"):
+            flt.state.resetState()          # what the plugin does on PRINT_STARTED; handlers and parser live on
+            cl.add("prior_print")
+        else:
+            flt.gcode("G90")
+            flt.gcode("G21")
     pre = ["G28", "G1 X10 Y20 Z3 E4 F1500"]
     if case.get("inch"):
         pre.append("G20")
@@ -174,6 +183,13 @@ def run_case(case, strict=False):  # pylint: disable=unused-argument,too-many-br
     if code in ("G2", "G3") and not (vals.get("I") or vals.get("J")):
         cmd += " I1.5"
         vals["I"] = 1.5
+    if case.get("prior") and case["prior"].get("how") == "split_same":
+        # the handlers' parser has just walked this very text to its end (a one-line script split on a settings save)
+        try:
+            for _ in flt.handlers.gcodeParser.parseLines(cmd):
+                pass
+        except Exception:  # pylint: disable=broad-except
+            pass
     try:
         flt.handlers.handleGcode(cmd, code, None)
     except Exception as exc:  # pylint: disable=broad-except
